@@ -1,3 +1,4 @@
+import Firebolt.Properties.TransBase
 import Firebolt.Spec.Receiver
 import Firebolt.Generated.Source
 import Firebolt.Expected.Source
@@ -399,6 +400,50 @@ theorem source_mrShutdown : GeneratedSrc.mrShutdown = ExpectedSrc.mrShutdown := 
 
 /-! ### influence closure: the pinned functions, and every function of the repository that writes a struct field or package
 variable they read, are unchanged (digests regenerated from /repo on every run; a difference names the functions) -/
+/-! ### The code itself, translated (`Generated/Trans.lean`, rewritten from /repo on every run by extractor/translate.go)
+
+The `translated_*` theorems are about MiniGo terms the translator produced from the current Go source: for every
+environment the translated fragment does what the hand-written model function says.  They are semantic obligations —
+a rewrite that preserves the behaviour keeps them provable, a changed comparison, bound or argument does not. -/
+section Translated
+open Firebolt.MiniGo Firebolt.TransBase
+
+/-- processMessage: an undecodable record does nothing; while catching up a record is buffered under its key and not
+delivered; afterwards it is delivered iff it is not an acknowledgement -/
+theorem translated_mrProcessMessage (σ : Env) :
+    let r := run Trans.mrProcessMessage σ
+    r.stuck = false ∧
+    ((("r.deliverMessage", [σ "wireMsg.Message"]) ∈ r.calls) ↔
+        (σ "json.Unmarshal#0" = 0 ∧ σ "r.initialized" ≠ 0 ∧ σ "wireMsg.Acknowledged" = 0)) ∧
+    (r.env "r.initBuffer[uniqueKey(wireMsg.Message)]" =
+        if σ "json.Unmarshal#0" = 0 ∧ σ "r.initialized" = 0 then σ "&wireMessage{}" else σ "r.initBuffer[uniqueKey(wireMsg.Message)]") := by
+  by_cases h1 : σ "json.Unmarshal#0" = 0 <;> by_cases h2 : σ "r.initialized" = 0 <;> by_cases h3 : σ "wireMsg.Acknowledged" = 0 <;>
+  minigo_simp [Trans.mrProcessMessage, h1, h2, h3]
+
+/-- the replay start offset of one partition of the message topic, as assigned -/
+theorem translated_mrStartOffsetBody (σ : Env) :
+    let low := σ "r.consumer.QueryWatermarkOffsets#0"
+    let high := σ "r.consumer.QueryWatermarkOffsets#1"
+    let err := σ "r.consumer.QueryWatermarkOffsets#2"
+    let low' := if err ≠ 0 then 0 else low
+    let r := run Trans.mrStartOffsetBody σ
+    r.stuck = false ∧ r.ret = none ∧
+    r.calls.getLast? = some ("append assignments {Topic,Partition,Offset}",
+      [σ "&r.topic", σ "partition.ID", if wrap64 (high - low') > 50000 then wrap64 (high - 50000) else low']) := by
+  by_cases h0 : σ "partition.Error.Code#0" = σ "kafka.ErrNoError" <;>
+  by_cases h1 : σ "r.consumer.QueryWatermarkOffsets#2" = 0 <;>
+  by_cases h2 : wrap64 (σ "r.consumer.QueryWatermarkOffsets#1" - (if σ "r.consumer.QueryWatermarkOffsets#2" ≠ 0 then 0 else σ "r.consumer.QueryWatermarkOffsets#0")) > 50000 <;>
+  simp [h1] at h2 <;>
+  minigo_simp [Trans.mrStartOffsetBody, h0, h1, h2] <;> (try omega)
+
+/-- and that is the model's `startOffset` (a failing watermark query of the scripted client yields zero values) -/
+theorem model_startOffset_eq (low high : Int) (err : Bool) (hz : err = true → high = 0) :
+    (if wrap64 (high - (if err then 0 else low)) > 50000 then wrap64 (high - 50000) else (if err then 0 else low)) =
+      Receiver.startOffset low high err := by
+  cases err <;> simp [Receiver.startOffset, Receiver.maxReplay] at hz ⊢
+  simp [hz]
+end Translated
+
 theorem closure_unchanged : GeneratedClo.C10 = ExpectedClo.C10 := by rfl
 
 end Firebolt.C10
